@@ -269,9 +269,14 @@ def exitStatus : Failure → Nat
   | .uncaught => 3
   | .interrupt => 1
 
-/-- every failure path logs or prints something before exiting -/
+/-- every failure path logs an error (or argparse prints one) before exiting; an interrupt
+only logs at INFO level, which the default verbosity does not show -/
 def failureMessage : Failure → Bool
+  | .interrupt => false
   | _ => true
+
+/-- `BaseCommand.name`: the module name with underscores replaced by hyphens -/
+def commandName (module : List Char) : List Char := module.map (fun c => if c = '_' then '-' else c)
 
 /-! ## Handlers as step lists -/
 
